@@ -29,8 +29,8 @@ Proof. unfold gen_rotg_gps_meaning_ok. prove gen_rotg_gps. Qed.
 Lemma gen_rotf_gps_meaning_proof : gen_rotf_gps_meaning_ok.
 Proof. unfold gen_rotf_gps_meaning_ok. prove gen_rotf_gps. Qed.
 
-Lemma gen_rotk_gps_index_proof : gen_rotk_gps_index_ok.
-Proof. unfold gen_rotk_gps_index_ok. prove gen_rotk_gps. Qed.
+Lemma gen_rotk_gps_same_as_pstrain_proof : gen_rotk_gps_same_as_pstrain_ok.
+Proof. unfold gen_rotk_gps_same_as_pstrain_ok. intros; unfold gen_rotk_gps, gen_rotk_pstrain; spec_red; list_eq. Qed.
 
 Lemma gen_rotg_axis_meaning_proof : gen_rotg_axis_meaning_ok.
 Proof. unfold gen_rotg_axis_meaning_ok. prove gen_rotg_axis. Qed.
@@ -38,8 +38,8 @@ Proof. unfold gen_rotg_axis_meaning_ok. prove gen_rotg_axis. Qed.
 Lemma gen_rotf_axis_meaning_proof : gen_rotf_axis_meaning_ok.
 Proof. unfold gen_rotf_axis_meaning_ok. prove gen_rotf_axis. Qed.
 
-Lemma gen_rotk_axis_index_proof : gen_rotk_axis_index_ok.
-Proof. unfold gen_rotk_axis_index_ok. prove gen_rotk_axis. Qed.
+Lemma gen_rotk_axis_same_as_pstrain_proof : gen_rotk_axis_same_as_pstrain_ok.
+Proof. unfold gen_rotk_axis_same_as_pstrain_ok. intros; unfold gen_rotk_axis, gen_rotk_pstrain; spec_red; list_eq. Qed.
 
 Lemma gen_rotg_pstress_meaning_proof : gen_rotg_pstress_meaning_ok.
 Proof. unfold gen_rotg_pstress_meaning_ok. prove gen_rotg_pstress. Qed.
@@ -47,8 +47,8 @@ Proof. unfold gen_rotg_pstress_meaning_ok. prove gen_rotg_pstress. Qed.
 Lemma gen_rotf_pstress_meaning_proof : gen_rotf_pstress_meaning_ok.
 Proof. unfold gen_rotf_pstress_meaning_ok. prove gen_rotf_pstress. Qed.
 
-Lemma gen_rotk_pstress_index_proof : gen_rotk_pstress_index_ok.
-Proof. unfold gen_rotk_pstress_index_ok. prove gen_rotk_pstress. Qed.
+Lemma gen_rotk_pstress_same_as_pstrain_proof : gen_rotk_pstress_same_as_pstrain_ok.
+Proof. unfold gen_rotk_pstress_same_as_pstrain_ok. intros; unfold gen_rotk_pstress, gen_rotk_pstrain; spec_red; list_eq. Qed.
 
 Lemma gen_rotg_agpstrain_meaning_proof : gen_rotg_agpstrain_meaning_ok.
 Proof. unfold gen_rotg_agpstrain_meaning_ok. prove gen_rotg_agpstrain. Qed.
@@ -82,7 +82,4 @@ Proof. unfold tg_rotg_pstrain_meaning_ok. prove tg_rotg_pstrain. Qed.
 
 Lemma tg_rotf_pstrain_meaning_proof : tg_rotf_pstrain_meaning_ok.
 Proof. unfold tg_rotf_pstrain_meaning_ok. prove tg_rotf_pstrain. Qed.
-
-Lemma tg_rotk_pstrain_index_proof : tg_rotk_pstrain_index_ok.
-Proof. unfold tg_rotk_pstrain_index_ok. prove tg_rotk_pstrain. Qed.
 
